@@ -13,6 +13,7 @@ def info(state):
 
 
 supvisors = Mock()
+supvisors.logger.level = 100
 p = ProcessStatus('g', 'p', ProcessRules(supvisors), supvisors)
 p.add_info('A', info(20))
 p.add_info('B', info(20))
